@@ -215,7 +215,7 @@ fn c18_keep_last_n2__rest() {
     keep_last_covers_n2(&o);
 }
 
-// @check props=C18 tier=thorough
+// @check props=C18 tier=quick
 // @desc KEEP_ALL, BY_RECEPTION_TIMESTAMP, cache with exactly 2 stored sample(s): one real add_reader_change never removes a stored sample; the new sample is stored last and all others are kept unchanged in order; Rejected only for a reached resource limit (then nothing changes); NotAdded never; resource-limit and representation invariants hold again.
 // @bounds exactly 2 stored sample(s), KEEP_ALL, BY_RECEPTION_TIMESTAMP, 2 instance handles (both registered), 2 writers, each resource limit in {1,2,3,unlimited} (QoS consistent), all 5 change kinds for stored and incoming samples, source timestamps None or sec 0..4 x nanosec {0, 5*10^8}, symbolic sample/view/instance states and generation counts 0..2, instance_ownership empty; unwind 6 (lists <= 4 elements + 2)
 // @assume pre-state satisfies the representation invariant R1-R3, the KEEP_LAST invariant (<= depth ALIVE samples per instance) and the resource-limit invariant (all re-asserted after the step)
@@ -282,7 +282,7 @@ fn c18_keep_last_n3__rest() {
     keep_last_covers_n2(&o);
 }
 
-// @check props=C18 tier=quick
+// @check props=C18 tier=thorough
 // @desc KEEP_ALL, BY_RECEPTION_TIMESTAMP, cache with exactly 1 stored sample(s): one real add_reader_change never removes a stored sample; the new sample is stored last and all others are kept unchanged in order; Rejected only for a reached resource limit (then nothing changes); NotAdded never; resource-limit and representation invariants hold again.
 // @bounds exactly 1 stored sample(s), KEEP_ALL, BY_RECEPTION_TIMESTAMP, 2 instance handles (both registered), 2 writers, each resource limit in {1,2,3,unlimited} (QoS consistent), all 5 change kinds for stored and incoming samples, source timestamps None or sec 0..4 x nanosec {0, 5*10^8}, symbolic sample/view/instance states and generation counts 0..2, instance_ownership empty; unwind 6 (lists <= 4 elements + 2)
 // @assume pre-state satisfies the representation invariant R1-R3, the KEEP_LAST invariant (<= depth ALIVE samples per instance) and the resource-limit invariant (all re-asserted after the step)
